@@ -404,9 +404,13 @@ pub fn main(args: &[String]) {
   if worker || o.jobs <= 1 {
     let mut lock = std::io::BufWriter::new(stdout.lock());
     let hi = o.hi.min(sel.len());
-    for (p, i) in sel.iter().take(hi).skip(o.lo) {
+    for (k, (p, i)) in sel.iter().enumerate().take(hi).skip(o.lo) {
       let c = to_case(p, *i);
       dfs::explore_bf(&c, o.preempt, if p.core { o.core_runs } else { o.max_runs }, true, &mut lock);
+      if worker {
+        let _ = lock.flush();
+        crate::recycle_if_leaky(k + 1);
+      }
     }
     let _ = lock.flush();
     return;
